@@ -23,17 +23,17 @@ func init() {
 	core.Register(&core.Simple{
 		Id: "C19", Lvl: "exploration", Quick: 40, Thorough: 1000, PerBatch: 10, Width: 3, Race: true, Timeout: 1500,
 		RuleText: "each case runs the real FlatNews, Agreement, handlers and processOutbox in a race-detector build: 2-8 posters, 2-8 readers and 2-6 clients that keep logging in run concurrently (in every second case together with a loop reloading the board file, as SIGHUP does) against a board of 0-60 KiB and an agreement of 0-60 KiB; every post body carries a unique id; call and return of every operation are stamped from one logical clock at the client boundary. Oracles: the final board must be a newest-first sequence of all acknowledged posts in the protocol's post format followed by the initial text; every read must be a post-boundary suffix of that final text containing every post acknowledged before the read was issued and none issued after it returned; porcupine checks the same history against a sequential model (post prepends, read returns the state); every agreement delivery equals the agreement; every connected user receives each post announcement exactly once; MessageBoard.txt equals the final board. distinct = (posters, readers, board size class, number of reads that overlapped a post); non-trivial = at least one read overlapped a post or another read",
-		Case: runCase,
+		Case:     runCase,
 	})
 }
 
 type op struct {
-	client     int
-	kind       string // post | read | agreement
-	id         string // post id
-	call, ret  int64
-	out        string
-	ok         bool
+	client    int
+	kind      string // post | read | agreement
+	id        string // post id
+	call, ret int64
+	out       string
+	ok        bool
 }
 
 const sep = "__________________________________________________________"
